@@ -1,4 +1,4 @@
-(** Model of internal/git/changes.go as of /repo HEAD (after fix 4dd7734): parsing of the
+(** Model of internal/git/changes.go as of /repo HEAD (after fixes 4dd7734 and d9e7954): parsing of the
     `git log --reverse --no-merges --first-parent --format=%H --name-status base..HEAD` text, path unquoting, the fold
     building the per-file change list ([getChangeByPath], [changesWithout]), and the finalisation
     (before/after type and body selection, the switch assigning ModifiedLines).
@@ -133,11 +133,24 @@ Record change := {
   ch_commits : list string
 }.
 
+(** getChangeByPath (fix d9e7954): the MOST RECENT record whose After.Name is the path (the loop runs from the end of
+    the slice). *)
+Definition has_after (p : string) (c : change) : bool := String.eqb (ch_after c) p.
+
 Definition get_change_by_path (changes : list change) (p : string) : option change :=
-  find (fun c => String.eqb (ch_after c) p) changes.
+  find (has_after p) (rev changes).
+
+(** changesWithout(changes, prev) deletes by pointer identity; every record is a fresh allocation, so exactly one slice
+    element goes: the one getChangeByPath returned, i.e. the last record whose After.Name is the path.  Older records with
+    the same After.Name (a deletion a later rename landed on) stay. *)
+Fixpoint remove_first {A} (f : A -> bool) (l : list A) : list A :=
+  match l with
+  | [] => []
+  | x :: r => if f x then r else x :: remove_first f r
+  end.
 
 Definition changes_without (changes : list change) (p : string) : list change :=
-  filter (fun c => negb (String.eqb (ch_after c) p)) changes.
+  rev (remove_first (has_after p) (rev changes)).
 
 Definition st (c : string) : ascii := match c with String a _ => a | _ => zero end.
 
